@@ -158,7 +158,7 @@ def run_iteration(ip, st, fr, H, var, N, placeholders, region=None, cont=None, r
                 continue      # the only branch taken since the header is the loop condition itself
             raise Undecided("loop in %s has an exit other than its loop condition" % fr.body["path"])
         elif kind == "panic":
-            st.oblig.append({"kind": "panic-path", "fn": fr.body["path"], "ok": False, "detail": "explicit panic reachable inside loop"})
+            st.oblig.append({"kind": "panic-path", "fn": fr.body["path"], "crate": fr.crate.name, "ok": False, "detail": "explicit panic reachable inside loop"})
         else:
             raise Undecided("early exit (%s) from loop in %s" % (kind, fr.body["path"]))
     if not res:
@@ -571,7 +571,7 @@ def unroll_loop(ip, st, fr, H, n):
                 if kind == "stop":
                     nxt.append(s2)
                 elif kind == "panic":
-                    st.oblig.append({"kind": "panic-path", "fn": fr.body["path"], "ok": False, "detail": "explicit panic reachable inside loop"})
+                    st.oblig.append({"kind": "panic-path", "fn": fr.body["path"], "crate": fr.crate.name, "ok": False, "detail": "explicit panic reachable inside loop"})
                 else:
                     raise Undecided("early exit (%s) from loop in %s" % (kind, fr.body["path"]))
         states = nxt
